@@ -31,7 +31,7 @@ theorem HasNul.reg {D : Desc} {s s' : St} {f : Fsm} {p : Nat} (h : SameReg D f s
 
 theorem OobF.reg {D : Desc} {s s' : St} {f : Fsm} (hph : s'.ph f = s.ph f) (hsrc : s'.wsrc f = s.wsrc f) (hwst : s'.wst f = s.wst f)
     (hpos : s'.pos f = s.pos f) (hb : SameReg D f s s') (hw : s'.waiting f → s.waiting f) (o : OobF D s f) : OobF D s' f := by
-  refine ⟨?_, ?_, ?_, ?_, fun a => ⟨by rw [hpos]; exact (o.wait (hw a)).pos, by rw [hsrc, hwst]; exact (o.wait (hw a)).src⟩⟩
+  refine ⟨?_, ?_, ?_, ?_, fun a => ⟨by rw [hpos]; exact (o.wait (hw a)).pos, by rw [hsrc, hwst]; exact (o.wait (hw a)).src⟩, fun a => by rw [hwst]; exact o.wsle (hph ▸ a)⟩
   · intro a b; rw [hpos]; exact (o.main (hph ▸ a) (hsrc ▸ b)).reg hb
   · intro a off b; rw [hpos]; exact o.nl (hph ▸ a) off (hsrc ▸ b)
   · intro a b; exact (o.first (hph ▸ a) (hwst ▸ b)).reg hb
@@ -160,7 +160,7 @@ theorem DescEq.hasNul {D D' : Desc} (h : DescEq D D') {s : St} {f : Fsm} {p : Na
 
 theorem DescEq.oobF {D D' : Desc} (h : DescEq D D') {s : St} {f : Fsm} (o : OobF D s f) : OobF D' s f :=
   ⟨fun a b => h.hasNul (o.main a b), o.nl, fun a b => h.hasNul (o.first a b),
-   fun a => by have := o.loop a; exact ⟨by rw [h.capOf]; exact this.1, by rw [h.getB]; exact this.2⟩, o.wait⟩
+   fun a => by have := o.loop a; exact ⟨by rw [h.capOf]; exact this.1, by rw [h.getB]; exact this.2⟩, o.wait, o.wsle⟩
 
 theorem DescEq.keep {D D' : Desc} (h : DescEq D D') {s : St} (w : Wf D s) (o : OobAll D s) : Wf D' s ∧ OobAll D' s := by
   have hc : D'.cmdCap = D.cmdCap := h.capOf .cmd
